@@ -28,6 +28,7 @@ func main() {
 	verbose := flag.Bool("v", false, "print every obligation")
 	dumpGen := flag.Bool("dumpgen", false, "print generated contract code")
 	jsonOut := flag.String("json", "", "write results as JSON")
+	flag.IntVar(&hsortBits, "hsort", 48, "bits of size components in heaps (debug)")
 	flag.Parse()
 	t0 := time.Now()
 	w, err := LoadWorld(*repo, *spec, strings.Split(*pkgs, ","), nil)
